@@ -779,6 +779,13 @@ func verifyAttempt(payment *MPPayment, attempt *HTLCAttemptInfo) error {
 	}
 
 	for _, h := range payment.InFlightHTLCs() {
+		// The same holds for the attempts we compare against: a stored
+		// attempt without hops has no final hop payload to look at.
+		if h.Route.FinalHop() == nil {
+			return fmt.Errorf("in-flight attempt %v: %w",
+				h.AttemptID, route.ErrNoRouteHopsProvided)
+		}
+
 		hMpp := h.Route.FinalHop().MPP
 		hBlinded := len(h.Route.FinalHop().EncryptedData) != 0
 
